@@ -271,7 +271,8 @@ extern "C" {
 # define TLS_CHACHA20_POLY1305_IETF_NONCE_LEN 0
 
 # define AEAD_NONCE_LEN(SSL) ((SSL->flags & SSL_FLAGS_NONCE_W) ? TLS_EXPLICIT_NONCE_LEN : 0)
-# define AEAD_TAG_LEN(SSL) ((SSL->cipher->flags & CRYPTO_FLAGS_CCM8) ? 8 : 16)
+/* (No cipher is selected yet while a TLS 1.3 client sends early data.) */
+# define AEAD_TAG_LEN(SSL) ((SSL->cipher && (SSL->cipher->flags & CRYPTO_FLAGS_CCM8)) ? 8 : 16)
 
 /*
     matrixSslSetSessionOption defines
